@@ -82,6 +82,10 @@ void h_literal(void) {
   C14_SHAPE_SETUP
   c14_n = nondet_size();
   if (c14_n < 1 || c14_n > C14_LIT_MAX) return;
+#ifndef C14_LIT_TAIL
+  /* the buffer ends after the character that follows the literal (arbitrary text after it: group any-text) */
+  for (size_t k = 0; k < C14_LIT_MAX + 1; ++k) if (k > c14_n) c14_text[k] = 0;
+#endif
   /* ---- precondition of the property: the text is a literal C++ defines (no assumption: a guard) ---- */
   c14_spec = c14_lit_spec(c14_text, c14_n);
   if (c14_spec.kind == C14_LIT_NONE) return;
